@@ -1,4 +1,5 @@
-\* random deep plans with failing collection starts
+\* plans with concurrent collection starts (as built, at most two calls in flight): every history, counts 1..4 x 1..4, init + 4 steps
+\* (filtered to those with an offerstart)
 SPECIFICATION Spec
 CHECK_DEADLOCK FALSE
 INVARIANTS PlanOut
@@ -7,12 +8,12 @@ CONSTANTS
   MaxT = 4
   Pairs <- AllPairs
   Namings = {"distinct", "same"}
-  MaxOps = 16
+  MaxOps = 5
   HandoffChecksCapacity = FALSE
   ForwardCountedOnce = FALSE
   SourceKeyFromMapping = FALSE
-  WithFail = TRUE
-  MaxFlight = 0
+  WithFail = FALSE
+  MaxFlight = 2
   OfferAtomic = TRUE
   WithDropped = FALSE
   DroppedChecksQuota = TRUE
